@@ -107,7 +107,7 @@ pub fn check_plan(prelude: &[Plan], p: &Plan, st: &mut Stats) -> R {
         func.blocks.push(blk.clone());
         let w = no_panic("Function::assemble", || func.assemble()).map_err(|f| f.with_decoded(decoded()))?;
         wrapf("Function(def None)::assemble", &w)?;
-        blk.label = Some(dr::Instruction::new(spirv::Op::Label, None, Some(77), vec![]));
+        blk.label = Some(crate::rs::mk_inst(spirv::Op::Label, None, Some(77), vec![]));
         let w = no_panic("Block::assemble", || blk.assemble()).map_err(|f| f.with_decoded(decoded()))?;
         ensure!(w.len() >= 2, "assemble-entry-points", tag(p), "labelled block assembles to {} words", w.len());
         wrapf("Block(labelled)::assemble", &w[2..])?;
